@@ -27,6 +27,7 @@ func TestMain(m *testing.M) {
 	ev.Describe("documents: generated specifications that are valid, broken by one rule, or broken by several independent rule-breaking edits in different definitions / operations (the shape on which map iteration order matters), "+
 		"plus structurally edited generated documents and fixtures; each is loaded afresh and validated R times (quick 3, thorough 8) in both continue-on-errors modes and from three renderings (JSON with sorted keys, JSON with reversed key order, YAML). "+
 		"Metamorphic oracle: (a) the sets of error and of warning messages are identical across repetitions and renderings (circular-ancestry messages compared after erasing which member of the cycle is named); "+
+		"(a') one loaded document validated three times in a row without re-loading it (same mode twice, then the other mode), and one validator object validating another document first, report what a freshly loaded copy and a fresh validator report; "+
 		"(b) every stop-early error is also reported with continue-on-errors; (c) IsValid() <=> no errors, so warnings alone never invalidate; (d) the separately returned warnings are exactly the warnings attached to the main result. "+
 		"Non-trivial = at least two independently broken places or at least one warning, and at least two renderings validated; distinct by content hash",
 		"process-to-process determinism is exercised by the driver's shards (separate processes, separate map seeds) only in so far as each shard repeats its own documents",
@@ -309,6 +310,41 @@ func check(c Case) (out ev.Outcome) {
 		} else if rn == "json" {
 			out.Excluded = append(out.Excluded, "document rejected by the loader")
 			return out
+		}
+	}
+	// the same loaded document validated again, without loading it anew: whatever an earlier validation did to the
+	// parsed document must not show in a later one
+	if text, ok := rs["json"]; ok && !crasher {
+		for _, first := range []bool{false, true} {
+			doc, err, pmsg := obs.LoadDoc(text)
+			if err != nil || pmsg != "" || doc == nil {
+				break
+			}
+			for i, cont := range []bool{first, first, !first} {
+				want := ref[cont]
+				if want == nil {
+					break
+				}
+				o := obs.ValidateSpec(doc, strfmt.Default, cont, nil)
+				if o.Panic != "" {
+					hook.ResetPools()
+					out.Excluded = append(out.Excluded, "re-validating a loaded document panics (a C07 matter)")
+					break
+				}
+				ge, gw, we := normalise(o.Errors), normalise(o.Warnings), want.errs
+				if strings.Join(ge, "\x00") != strings.Join(we, "\x00") {
+					if id, ok := ev.KnownOpen("unresolved_refs_first_found_order"); ok && strings.Join(eraseFirstFound(ge), "\x00") == strings.Join(eraseFirstFound(we), "\x00") {
+						knownHit[id] = true
+						ge, we = eraseFirstFound(ge), eraseFirstFound(we)
+					}
+				}
+				if strings.Join(ge, "\x00") != strings.Join(we, "\x00") || strings.Join(gw, "\x00") != strings.Join(want.warns, "\x00") {
+					return ev.Failf("validation %d of one loaded document (continue-on-errors=%v, first validated with %v) reports errors %q warnings %q; a freshly loaded copy gives errors %q warnings %q", i+1, cont, first, ge, gw, want.errs, want.warns)
+				}
+				if i > 0 {
+					out.Classes = append(out.Classes, "loaded-document-validated-again")
+				}
+			}
 		}
 	}
 	// one validator object, two documents in a row
